@@ -103,3 +103,19 @@ pub fn read_cases(path: &str) -> Vec<Vec<u64>> {
         })
         .collect()
 }
+
+/// A loopback port (TCP and UDP) for a listener that is bound later by somebody else (the client under test): taken
+/// from a range below the kernel's ephemeral ports and never handed out twice by this process, so that concurrent
+/// scenarios, and connections made meanwhile, cannot grab it between the probe and the bind.
+pub fn alloc_port() -> u16 {
+    use std::sync::atomic::{AtomicU32, Ordering};
+    static NEXT: AtomicU32 = AtomicU32::new(0);
+    loop {
+        let k = NEXT.fetch_add(1, Ordering::SeqCst);
+        let start = (std::process::id() % 97) * 113;
+        let p = 21000 + ((start + k) % 11000) as u16;
+        if std::net::TcpListener::bind(("127.0.0.1", p)).is_ok() && std::net::UdpSocket::bind(("127.0.0.1", p)).is_ok() {
+            return p;
+        }
+    }
+}
